@@ -42,7 +42,8 @@ Section NodeProofs.
 
   (* b is an acceptable successor of hd: verifies, next round, linked when chained *)
   Definition good_put (hd b : beacon) : Prop :=
-    verified b /\ b_round b = b_round hd + 1 /\ (c_chained C = true -> b_prev b = b_sig hd).
+    verified b /\ b_round b = b_round hd + 1 /\ (c_chained C = true -> b_prev b = b_sig hd) /\
+    (c_chained C = false -> b_prev b = empty_id).
 
   Fixpoint puts_ok (hd : beacon) (bs : list beacon) : Prop :=
     match bs with
@@ -103,7 +104,9 @@ Section NodeProofs.
     unfold stack_accepts. intros H Hv. apply andb_prop in H as [Hr Hp].
     apply Z.eqb_eq in Hr. split; [apply verified_stored; exact Hv|]. split.
     - unfold stored_form. destruct (c_chained C); simpl; exact Hr.
-    - intros Hc. rewrite Hc in Hp. apply Z.eqb_eq in Hp. unfold stored_form. rewrite Hc. exact Hp.
+    - split.
+      + intros Hc. rewrite Hc in Hp. apply Z.eqb_eq in Hp. unfold stored_form. rewrite Hc. exact Hp.
+      + intros Hc. unfold stored_form. rewrite Hc. reflexivity.
   Qed.
 
   (* ---------- the aggregator ---------- *)
@@ -652,3 +655,260 @@ Section NodeTime.
     unfold all_outs; simpl. apply emits_timely_app; [exact Et|]. eapply IH; eauto.
   Qed.
 End NodeTime.
+
+(* ---------- C02: any two honest nodes agree on every round both hold ---------- *)
+Lemma beacon_eq_dec (a b : beacon) : {a = b} + {a <> b}.
+Proof. decide equality; apply Z.eq_dec. Qed.
+
+Section NodeAgree.
+  Variable C : cfg.
+  Variable vrec : Z -> Z -> Z -> bool.
+  (* threshold BLS signatures are unique per (key, message) *)
+  Hypothesis vrec_unique : forall r p s1 s2, vrec r p s1 = true -> vrec r p s2 = true -> s1 = s2.
+
+  Notation chain_ok := (chain_ok C vrec).
+
+  Definition genesis_of (ch : list beacon) : beacon := last ch (mkB 0 empty_id empty_id).
+
+  (* a chain in stored form: on unchained schemes the previous signature is stripped *)
+  Definition stored_chain (ch : list beacon) : Prop :=
+    c_chained C = false -> forall b, In b ch -> b <> genesis_of ch -> b_prev b = empty_id.
+
+  Lemma chain_ok_rounds ch : chain_ok ch -> forall b, In b ch -> b_round (genesis_of ch) <= b_round b.
+  Proof.
+    induction ch as [|x ch IH]; intros Hc b Hin; [destruct Hin|].
+    destruct ch as [|y ch'].
+    - destruct Hin as [->|[]]. unfold genesis_of; simpl. lia.
+    - destruct Hc as [[_ [Hr _]] Hc]. unfold genesis_of in *. change (last (x :: y :: ch') _) with (last (y :: ch') (mkB 0 empty_id empty_id)).
+      destruct Hin as [->|Hin]; [|apply IH; assumption].
+      specialize (IH Hc y (or_introl eq_refl)). lia.
+  Qed.
+
+  (* the beacon of round r in a valid chain, if present, is unique and its predecessor is the
+     beacon of round r-1 *)
+  Lemma chain_ok_pred ch : chain_ok ch -> forall b, In b ch -> b <> genesis_of ch ->
+    exists b', In b' ch /\ b_round b' = b_round b - 1 /\ good_put C vrec b' b.
+  Proof.
+    induction ch as [|x ch IH]; intros Hc b Hin Hg; [destruct Hin|].
+    destruct ch as [|y ch'].
+    - destruct Hin as [->|[]]. exfalso; apply Hg; reflexivity.
+    - destruct Hc as [Hgp Hc]. unfold genesis_of in *.
+      change (last (x :: y :: ch') _) with (last (y :: ch') (mkB 0 empty_id empty_id)) in *.
+      destruct Hin as [->|Hin].
+      + exists y. split; [right; left; reflexivity|]. destruct Hgp as [Hv [Hr Hp]]. split; [lia|]. split; auto.
+      + destruct (IH Hc b Hin Hg) as [b' [Hin' [Hr' Hgp']]]. exists b'. split; [right; exact Hin'|auto].
+  Qed.
+
+  Theorem chains_agree ch1 ch2 :
+    chain_ok ch1 -> chain_ok ch2 -> ch1 <> [] -> ch2 <> [] ->
+    genesis_of ch1 = genesis_of ch2 ->
+    forall n b1 b2, In b1 ch1 -> In b2 ch2 ->
+      b_round b1 = b_round (genesis_of ch1) + Z.of_nat n -> b_round b2 = b_round b1 -> b1 = b2.
+  Proof.
+    intros Hc1 Hc2 Hn1 Hn2 Hgen.
+    assert (Hlast1 : In (genesis_of ch1) ch1).
+    { unfold genesis_of. destruct ch1; [contradiction|]. apply exists_last in Hn1 as [l [a ->]].
+      rewrite last_last. apply in_or_app; right; left; reflexivity. }
+    assert (Hlast2 : In (genesis_of ch2) ch2).
+    { unfold genesis_of. destruct ch2; [contradiction|]. apply exists_last in Hn2 as [l [a ->]].
+      rewrite last_last. apply in_or_app; right; left; reflexivity. }
+    (* a beacon of a valid chain with the genesis round is the genesis *)
+    assert (Hgu : forall ch, chain_ok ch -> forall b, In b ch -> b_round b = b_round (genesis_of ch) -> b = genesis_of ch).
+    { intros ch Hc b Hin Hr. destruct (beacon_eq_dec b (genesis_of ch)) as [|Hne]; [assumption|].
+      destruct (chain_ok_pred ch Hc b Hin Hne) as [b' [Hin' [Hr' _]]].
+      pose proof (chain_ok_rounds ch Hc b' Hin'). lia. }
+    induction n as [|n IH]; intros b1 b2 Hi1 Hi2 Hr1 Hr2.
+    - rewrite Z.add_0_r in Hr1.
+      rewrite (Hgu ch1 Hc1 b1 Hi1 Hr1). rewrite (Hgu ch2 Hc2 b2 Hi2) by (rewrite <- Hgen; lia). exact Hgen.
+    - assert (Hne1 : b1 <> genesis_of ch1) by (intros ->; lia).
+      assert (Hne2 : b2 <> genesis_of ch2) by (intros ->; rewrite <- Hgen in Hr2; lia).
+      destruct (chain_ok_pred ch1 Hc1 b1 Hi1 Hne1) as [p1 [Hp1 [Hpr1 [Hv1 [_ [Hl1 He1]]]]]].
+      destruct (chain_ok_pred ch2 Hc2 b2 Hi2 Hne2) as [p2 [Hp2 [Hpr2 [Hv2 [_ [Hl2 He2]]]]]].
+      assert (Hpp : p1 = p2) by (apply IH; try assumption; lia).
+      assert (Hprev : b_prev b1 = b_prev b2).
+      { destruct (c_chained C) eqn:Ech.
+        - rewrite (Hl1 eq_refl), (Hl2 eq_refl), Hpp. reflexivity.
+        - rewrite (He1 eq_refl), (He2 eq_refl). reflexivity. }
+      unfold verified in Hv1, Hv2. rewrite Hr2, <- Hprev in Hv2.
+      pose proof (vrec_unique _ _ _ _ Hv1 Hv2) as Hsig.
+      destruct b1, b2; simpl in *; congruence.
+  Qed.
+End NodeAgree.
+
+(* ---------- C07 (node-local): when the vault switches, and what counts afterwards ---------- *)
+Section NodeSwitch.
+  Variable C : cfg.
+  Variable idx_of : Z -> Z.
+  Variable vpart : Z -> Z -> Z -> Z -> bool.
+  Variable recov : Z -> Z -> Z -> list Z -> Z -> option Z.
+  Variable vrec : Z -> Z -> Z -> bool.
+  Variable own_psig : Z -> Z -> Z -> Z.
+  Notation step := (step C idx_of vpart recov vrec own_psig).
+
+  (* storing a beacon switches to the pending group exactly when its round has reached the
+     target (the round before the transition round), and never otherwise *)
+  Lemma after_put_switch s b :
+    (forall t g, s_pending s = Some (t, g) -> t <= b_round b ->
+       s_grp (after_put s b) = g /\ s_pending (after_put s b) = None) /\
+    (forall t g, s_pending s = Some (t, g) -> b_round b < t ->
+       s_grp (after_put s b) = s_grp s /\ s_pending (after_put s b) = Some (t, g)) /\
+    (s_pending s = None -> s_grp (after_put s b) = s_grp s /\ s_pending (after_put s b) = None).
+  Proof.
+    unfold after_put. repeat split; intros.
+    - rewrite H. destruct (Z.leb_spec t (b_round b)); [reflexivity|lia].
+    - rewrite H. destruct (Z.leb_spec t (b_round b)); [reflexivity|lia].
+    - rewrite H. destruct (Z.leb_spec t (b_round b)); [lia|reflexivity].
+    - rewrite H. destruct (Z.leb_spec t (b_round b)); [lia|reflexivity].
+    - rewrite H; reflexivity.
+    - rewrite H; reflexivity.
+  Qed.
+
+  (* group and pending transition as a function of the beacons stored since:
+     [settle g pend puts] is the live group after the puts *)
+  Fixpoint settle (g : grp) (pend : option (Z * grp)) (puts : list beacon) : grp * option (Z * grp) :=
+    match puts with
+    | [] => (g, pend)
+    | b :: puts' =>
+        match pend with
+        | Some (t, g') => if t <=? b_round b then settle g' None puts' else settle g pend puts'
+        | None => settle g None puts'
+        end
+    end.
+
+  Lemma after_put_settle s b : (s_grp (after_put s b), s_pending (after_put s b)) = settle (s_grp s) (s_pending s) [b].
+  Proof. unfold after_put; simpl. destruct (s_pending s) as [[t g]|]; [destruct (t <=? b_round b)|]; reflexivity. Qed.
+
+  Lemma settle_app g pend a b : settle g pend (a ++ b) = let '(g1, p1) := settle g pend a in settle g1 p1 b.
+  Proof.
+    revert g pend; induction a as [|x a IH]; intros g pend; simpl; [reflexivity|].
+    destruct pend as [[t g']|]; [destruct (t <=? b_round x)|]; apply IH.
+  Qed.
+
+  Definition gp (s : nstate) := (s_grp s, s_pending s).
+  Definition tracks (s s' : nstate) (o : list out) := gp s' = settle (s_grp s) (s_pending s) (proj_puts o).
+
+  Lemma tracks_nop s s' o : gp s' = gp s -> proj_puts o = [] -> tracks s s' o.
+  Proof. unfold tracks. intros -> ->. reflexivity. Qed.
+
+  Lemma tracks_trans s s1 s2 o1 o2 : tracks s s1 o1 -> tracks s1 s2 o2 -> tracks s s2 (o1 ++ o2).
+  Proof.
+    unfold tracks, gp. intros H1 H2. rewrite proj_puts_app, settle_app. rewrite <- H1. exact H2.
+  Qed.
+
+  Lemma tracks_gp_eq s s0 s' o : gp s0 = gp s -> tracks s0 s' o -> tracks s s' o.
+  Proof. unfold tracks, gp. intros E H. injection E as E1 E2. rewrite <- E1, <- E2. exact H. Qed.
+
+  Lemma tracks_cons_nonput s s' x o : tracks s s' o -> (forall b, x <> OPut b) -> tracks s s' (x :: o).
+  Proof. unfold tracks. intros H Hx. destruct x; simpl; try exact H. exfalso; eapply Hx; reflexivity. Qed.
+
+  Lemma agg_tracks s r p sg s' o : agg_partial C idx_of recov vrec s r p sg = (s', o) -> tracks s s' o.
+  Proof.
+    unfold Node.agg_partial. intros H.
+    destruct (negb ((b_round (head s) <? r) && (r <=? b_round (head s) + c_limit C + 1))).
+    { inversion H; subst. apply tracks_nop; reflexivity. }
+    destruct (cache_find _ _ _) as [e|].
+    2:{ inversion H; subst. apply tracks_nop; reflexivity. }
+    destruct (Z.of_nat (length (ce_sigs e)) <? g_thr (s_grp s)).
+    { inversion H; subst. apply tracks_nop; reflexivity. }
+    destruct (recov _ _ _ _ _) as [fs|].
+    2:{ inversion H; subst. apply tracks_nop; reflexivity. }
+    destruct (vrec r p fs); cbn [negb] in H.
+    2:{ inversion H; subst. apply tracks_nop; reflexivity. }
+    destruct (b_round (head s) + 1 =? r); cbn [negb] in H.
+    2:{ inversion H; subst. apply tracks_nop; [reflexivity|]. destruct (b_round (head s) + 1 <? r); reflexivity. }
+    destruct (stack_accepts C (head s) (mkB r p fs)); cbn [negb] in H.
+    2:{ inversion H; subst. apply tracks_nop; reflexivity. }
+    match type of H with context[after_put ?x ?b] => pose proof (after_put_settle x b) as Hs end.
+    destruct (r <? s_cur s); inversion H; subst; unfold tracks, gp; cbn [s_grp s_pending proj_puts] in *; exact Hs.
+  Qed.
+
+  Lemma process_tracks s r p sg s' o : process_partial C idx_of vpart recov vrec s r p sg = (s', o) -> tracks s s' o.
+  Proof.
+    unfold Node.process_partial. intros H.
+    repeat match type of H with
+    | (if ?c then _ else _) = _ => destruct c; [inversion H; subst; apply tracks_nop; reflexivity|]
+    end.
+    eapply agg_tracks; exact H.
+  Qed.
+
+  Lemma emit_tracks s cur upon s' o : emit_on C idx_of recov vrec own_psig s cur upon = (s', o) -> tracks s s' o.
+  Proof.
+    unfold Node.emit_on. intros H.
+    destruct (if cur =? b_round upon then _ else _) as [r p].
+    destruct (Node.agg_partial _ _ _ _ _ _ _ _) as [s1 o1] eqn:E. inversion H; subst.
+    apply agg_tracks in E. apply tracks_cons_nonput; [exact E|discriminate].
+  Qed.
+
+  Lemma try_node_tracks bs : forall s upto s' o, try_node C vrec s upto bs = (s', o) -> tracks s s' o.
+  Proof.
+    induction bs as [|b bs IH]; intros s upto s' o H; simpl in H.
+    { inversion H; subst. apply tracks_nop; reflexivity. }
+    destruct (negb (vrec _ _ _)). { inversion H; subst. apply tracks_nop; reflexivity. }
+    destruct (negb (stack_accepts _ _ _)). { inversion H; subst. apply tracks_nop; reflexivity. }
+    assert (T1 : tracks s (after_put s (stored_form C b)) [OPut (stored_form C b)]).
+    { unfold tracks, gp. cbn [proj_puts]. apply after_put_settle. }
+    destruct (b_round b =? upto). { inversion H; subst. exact T1. }
+    destruct (Node.try_node _ _ _ _ _) as [s2 o2] eqn:E. inversion H; subst.
+    apply IH in E. exact (tracks_trans _ _ _ _ _ T1 E).
+  Qed.
+
+  Lemma do_sync_tracks s upto sync s' o : do_sync C vrec s upto sync = (s', o) -> tracks s s' o.
+  Proof.
+    unfold Node.do_sync. intros H. destruct sync as [bs|].
+    - destruct (Node.try_node _ _ _ _ _) as [s1 o1] eqn:E. inversion H; subst.
+      apply try_node_tracks in E. apply tracks_cons_nonput; [exact E|discriminate].
+    - inversion H; subst. apply tracks_nop; reflexivity.
+  Qed.
+
+  Lemma fire_timers_tracks ts : forall s s' o, fire_timers C idx_of recov vrec own_psig s ts = (s', o) -> tracks s s' o.
+  Proof.
+    induction ts as [|t ts IH]; intros s s' o H; simpl in H.
+    { inversion H; subst. apply tracks_nop; reflexivity. }
+    destruct (Node.emit_on _ _ _ _ _ _ _ _) as [s1 o1] eqn:E1.
+    destruct (Node.fire_timers _ _ _ _ _ _ _) as [s2 o2] eqn:E2. inversion H; subst.
+    apply emit_tracks in E1. apply IH in E2. exact (tracks_trans _ _ _ _ _ E1 E2).
+  Qed.
+
+  Lemma fire_due_tracks s s' o : fire_due C idx_of recov vrec own_psig s = (s', o) -> tracks s s' o.
+  Proof.
+    unfold Node.fire_due. intros H. destruct (s_running s).
+    - apply fire_timers_tracks in H. eapply tracks_gp_eq; [|exact H]. reflexivity.
+    - inversion H; subst. apply tracks_nop; reflexivity.
+  Qed.
+
+  (* Except through an explicit TransitionNewGroup or a restart (which reloads the latest group
+     from disk), the live group of a node changes in exactly one way: a beacon whose round has
+     reached the pending transition's target is stored. *)
+  Theorem step_tracks s e s' o :
+    (forall t g, e <> ETransition t g) -> (forall sy, e <> ERestart sy) ->
+    step s e = (s', o) -> tracks s s' o.
+  Proof.
+    intros Ht Hr H.
+    destruct e as [d|d| |rho sync|rho sync|r p sg| |sync|target g]; simpl in H.
+    - apply fire_due_tracks in H. eapply tracks_gp_eq; [|exact H]. reflexivity.
+    - inversion H; subst. apply tracks_nop; reflexivity.
+    - apply fire_due_tracks; exact H.
+    - destruct (s_running s); cbn [negb] in H; [|inversion H; subst; apply tracks_nop; reflexivity].
+      destruct (Node.emit_on _ _ _ _ _ _ _ _) as [s1 o1] eqn:E1. apply emit_tracks in E1.
+      assert (T1 : tracks s s1 o1) by (eapply tracks_gp_eq; [|exact E1]; reflexivity).
+      destruct (b_round (head s) + 1 <? rho).
+      + destruct (Node.do_sync _ _ _ _ _) as [s2 o2] eqn:E2. inversion H; subst.
+        apply do_sync_tracks in E2. exact (tracks_trans _ _ _ _ _ T1 E2).
+      + inversion H; subst. exact T1.
+    - destruct (s_running s); cbn [negb] in H; [|inversion H; subst; apply tracks_nop; reflexivity].
+      destruct (if rho =? b_round (head s) then _ else _) as [r p].
+      destruct (if b_round (head s) + 1 <? rho then _ else _) as [s1 o1] eqn:E1.
+      destruct (Node.agg_partial _ _ _ _ _ _ _ _) as [s2 o2] eqn:E2. inversion H; subst.
+      assert (T1 : tracks s s1 o1).
+      { destruct (b_round (head s) + 1 <? rho).
+        - apply do_sync_tracks in E1. eapply tracks_gp_eq; [|exact E1]. reflexivity.
+        - inversion E1; subst. apply tracks_nop; reflexivity. }
+      apply agg_tracks in E2. apply tracks_cons_nonput; [|discriminate].
+      exact (tracks_trans _ _ _ _ _ T1 E2).
+    - destruct (s_running s); cbn [negb] in H; [|inversion H; subst; apply tracks_nop; reflexivity].
+      eapply process_tracks; exact H.
+    - inversion H; subst. apply tracks_nop; reflexivity.
+    - exfalso; eapply Hr; reflexivity.
+    - exfalso; eapply Ht; reflexivity.
+  Qed.
+End NodeSwitch.
